@@ -10,7 +10,7 @@ worker results are merged by max, deepening stops only at a mate score; stand-pa
 from facts import callee_name
 from terms import TermBuilder, show, walk, const_value
 import cfg
-from .common import live_calls, guards_of
+from .common import live_calls, guards_of, is_iter_next
 from .c01 import is_call
 
 LEVEL = "other"
@@ -47,6 +47,7 @@ def run(ck):
     ck.run_rule(r7_table_use)
     ck.run_rule(r8_r10_driver)
     ck.run_rule(r12_value_algebra)
+    ck.run_rule(r13_full_width)
     from .c05 import v3_mate_score as v3_mate_scores
     ck.run_rule(v3_mate_scores)
     # the move-less test of R6 compares the node counter before and after the move loop: it is only sound if every visited
@@ -520,3 +521,72 @@ def r12_value_algebra(ck):
     adt = ck.adt(EV + "Evaluation", "R12")
     f = adt["variants"][0]["fields"]
     ck.req(len(f) == 1, "R12.repr", "Evaluation", "", "Evaluation is not a single-number newtype: %s" % [(x["name"], x["ty"]) for x in f])
+
+
+def r13_full_width(ck):
+    """Completeness rests on full width: below the horizon every generated move of the node is searched.  Between the generator's call and the
+    move loop the node's move buffer may be reordered and extended (the root's priority move), never shortened; the loop walks the whole
+    buffer.  A removal keyed on anything coarser than the whole move (origin and destination only) silently drops the under-promotions."""
+    prog = ck.prog
+    b = ck.body(REC, "R13")
+    tb = TermBuilder(prog, b)
+    bufs = [i for i in range(1, b.arg_count + 1) if "PseudoLegalMove" in b.local_ty(i) and "Vec" in b.local_ty(i)]
+    if len(bufs) != 1:
+        ck.missing("R13", "the move buffer parameter (&mut Vec<PseudoLegalMove>) of analyze_recursive, found %d" % len(bufs))
+        return
+    BUF = ("param", bufs[0])
+    gens = [bb for bb, t in live_calls(b) if callee_name(t).endswith("compute_psuedo_legal_moves_into") or callee_name(t).endswith("compute_pseudo_legal_moves_into")]
+    ck.floor("R13", len(gens), 1, "calls of the pseudo-legal move generator into the node's buffer")
+    SHORTEN = ("retain", "retain_mut", "remove", "swap_remove", "truncate", "pop", "drain", "dedup", "dedup_by", "dedup_by_key", "split_off", "clear",
+               "extract_if", "resize", "resize_with", "set_len", "splice")
+    KEEP = ("push", "sort_by_cached_key", "sort_by_key", "sort_by", "sort", "sort_unstable", "sort_unstable_by", "sort_unstable_by_key", "reverse", "swap",
+            "shuffle", "iter", "iter_mut", "len", "is_empty", "deref", "deref_mut", "as_slice", "as_mut_slice", "last", "first", "get", "reserve",
+            "rotate_left", "rotate_right", "extend", "insert", "into_iter", "index", "index_mut", "capacity", "partial_shuffle", "select_nth_unstable_by_key")
+    after = cfg.reachable(b, gens) if gens else set()
+    n_uses = 0
+    for bb, t in live_calls(b):
+        if bb not in after or bb in gens:
+            continue
+        args = [tb.operand(a) for a in t["args"]]
+        if not any(x == BUF for a in args for x in walk(a)):
+            continue
+        cn = callee_name(t)
+        last = cn.split("::")[-1]
+        # only calls that receive the buffer itself (possibly re-borrowed / dereferenced), not values read out of it
+        direct = any(_is_buf_ref(a, BUF) for a in args)
+        if not direct:
+            continue
+        n_uses += 1
+        if last in SHORTEN:
+            ck.fail("R13.full_width", "%s@L%s" % (last, t.get("line")), b.where(t.get("line")),
+                    "the node's move list is shortened by `%s` after generation: moves that are removed are never searched, a forced mate through one of them is missed" % last)
+        elif last not in KEEP and not cn.startswith("core::iter::") and "Iterator" not in cn:
+            ck.fail("R13.full_width", "%s@L%s" % (last, t.get("line")), b.where(t.get("line")),
+                    "the node's move list is handed to `%s` after generation; the rule cannot tell that it keeps every generated move" % cn[-80:])
+    ck.floor("R13", n_uses, 2, "uses of the move buffer between generation and the end of the node")
+    # the loop walks the whole buffer: the iterator it steps is iter()/iter().rev()/into_iter() of the buffer, nothing in between
+    ADAPT_OK = ("iter", "iter_mut", "rev", "into_iter", "deref", "deref_mut", "by_ref", "copied", "cloned", "peekable", "enumerate", "as_slice", "fuse")
+    recs = [bb for bb, t in live_calls(b, names=(REC,))]
+    heads = []
+    for bb, t in live_calls(b):
+        if is_iter_next(callee_name(t)) and any(r in cfg.reachable(b, [bb]) for r in recs) and cfg.in_cycle(b, bb):
+            src = tb.operand(t["args"][0])
+            if any(x == BUF for x in walk(src)):
+                heads.append((bb, t, src))
+    ck.floor("R13", len(heads), 1, "move loops over the node's buffer that lead to the recursive call")
+    for bb, t, src in heads:
+        x = src
+        bad = []
+        while x[0] == "call":
+            last = x[1].split("::")[-1]
+            if last not in ADAPT_OK:
+                bad.append(last)
+            x = x[2][0] if x[2] else ("none",)
+        ck.req(not bad, "R13.loop_all", "move loop@L%s" % t.get("line"), b.where(t.get("line")),
+               "the move loop does not walk the whole buffer (adapters: %s): some generated moves are never searched" % bad)
+
+
+def _is_buf_ref(a, BUF):
+    while a[0] == "call" and a[1].split("::")[-1] in ("deref", "deref_mut", "as_mut", "as_ref", "borrow_mut", "borrow") and a[2]:
+        a = a[2][0]
+    return a == BUF
